@@ -9,18 +9,76 @@ ndl.ndl(alpha=1, betas=(eta, eta), lambda=1) on the SAME event file
 (implementation vs implementation), after renaming vector dimensions to names;
 both also against the Lean models (whModel, ndlModel). Multi-cue events,
 repeated cues with remove_duplicates=False on both sides, outcomes unique
-within an event.
+within an event.  Stream many_chunks_<flavour>: 23..38 events with
+events_per_temporary_file in {2, 3} (11..15 chunk files).  Streams onehot_numpy /
+onehot_dict_wh: method='numpy' and dict_wh (single-cue/single-outcome events,
+one-hot tables) against ndl.ndl on the same events.
 """
 from fractions import Fraction
 
 import gen
 import learners as L
 import whgen
-from common import rng, frac
+from common import rng, frac, close
 
 TIMEOUT = 120
 CUES = ['a', 'b', 'c', 'd', 'ä']
 OUTS = ['x', 'y', 'z', 'ö']
+# duplicate policies for method='numpy' / dict_wh (remove_duplicates None / False)
+METHOD_POLICIES = ['error', 'keep']
+
+
+def judge(t, wi, ni, wm, nm):
+    """None, or the first disagreement of one group: ndl.ndl vs ndlModel, wh vs whModel, wh (renamed) vs ndl.ndl.
+    wh vs ndl is compared exactly; only the long sequences of stream many_chunks (t['_long']) whose model
+    values need more than 53 bits are compared with the 2^-30 relative tolerance of common.close"""
+    exact = not (t.get('_long') and max(wm.get('bits', 0), nm.get('bits', 0)) > 53)
+    prob = L.compare(ni, nm)
+    if prob:
+        prob = 'ndl.ndl vs Lean model: ' + prob
+    elif 'err' in wi:
+        prob = 'wh.wh raised %s %s' % (wi['err'], wi.get('msg', ''))
+    else:
+        if t['flavour'] != 'b2b':
+            d = whgen.compare(wi, wm)
+            if d:
+                prob = 'wh.wh vs Lean whModel: ' + d
+        if prob is None:
+            ch = t.get('cue_vectors', {}).get('hot')
+            oh = t.get('outcome_vectors', {}).get('hot')
+            inv_c = {v: k for k, v in ch.items()} if ch else None
+            inv_o = {v: k for k, v in oh.items()} if oh else None
+            ren = {}
+            for o, cu, v in wi['cells']:
+                ro = inv_o.get(o) if inv_o else o
+                rc = inv_c.get(cu) if inv_c else cu
+                if ro is None or rc is None:
+                    if frac(v) != 0:
+                        prob = 'weight on an unused one-hot dimension (%r, %r) = %s' % (o, cu, v)
+                    continue
+                ren[(ro, rc)] = frac(v)
+            nd = gen.cells_dict(ni['cells'])
+            for k in set(ren) | set(nd):
+                if not close(ren.get(k, Fraction(0)), nd.get(k, Fraction(0)), exact):
+                    prob = 'wh (%s, one-hot) weight %r = %s, ndl(alpha=1, betas=(eta,eta), lambda=1) = %s' % (
+                        t['flavour'], k, float(ren.get(k, 0)), float(nd.get(k, 0)))
+                    break
+    return prob
+
+
+def ndl_case_of(t):
+    """the Rescorla-Wagner call on the same events: alpha=1, betas=(eta, eta), lambda=1, same configuration"""
+    return dict(n_jobs=t['n_jobs'], per_job=t['per_job'], per_file=t['per_file'], events=t['events'], alpha='1',
+                beta1=t['eta'], beta2=t['eta'], **{'lambda': '1'}, policy=t['policy'])
+
+
+def evaluate(pool, driver, t):
+    c = ndl_case_of(t)
+    wi = pool.map([t])[0]
+    ni = pool.map([L.impl_task(c, 'ndl_openmp')])[0]
+    nm = driver.ask([L.model_request(c, 'ndl_openmp')])[0]
+    wm = driver.ask([whgen.model_request(t)])[0] if t['flavour'] != 'b2b' else nm
+    return judge(t, wi, ni, wm, nm), wi, ni
 
 
 def run(rep, pool, driver, tier):
@@ -53,46 +111,77 @@ def run(rep, pool, driver, tier):
                 t['per_job'] = r.choice([x for x in (d, max(1, d // 2), d + 1, max(1, d - 1)) if x >= 1])
             ndl_case = dict(cfg, per_job=t['per_job'], events=es, alpha='1', beta1=eta, beta2=eta, **{'lambda': '1'}, policy=policy)
             groups.append((t, ndl_case))
+    # >= 11 chunk files (audit X7): wh.wh sorts its chunk file names at three places of its own; the same
+    # file goes to ndl.ndl (its sort is C04's).  eta 1/2 keeps up to 38 events in the exact domain.
+    r_mc = rng('C14/many_chunks')
+    for i in range(1 if quick else 12):
+        per_file = r_mc.choice([2, 3])
+        n = r_mc.randint(23, 30) if per_file == 2 else r_mc.randint(31, 38)
+        keep = r_mc.random() < 0.4
+        es = []
+        for _ in range(n):
+            kc = r_mc.randint(1, 3)
+            cs = [r_mc.choice(CUES) for _ in range(kc)] if keep else r_mc.sample(CUES, kc)
+            es.append([cs, r_mc.sample(OUTS, r_mc.randint(1, 2))])
+        policy = 'keep' if keep else r_mc.choice(['error', 'dedup'])
+        eta = r_mc.choice(['1/2', '1/4', '1/8'])
+        cfg = dict(n_jobs=r_mc.choice([1, 2, 4]), per_job=r_mc.choice([1, 2, 3, 10]), per_file=per_file)
+        for flavour in ('r2r', 'b2r', 'r2b', 'b2b'):
+            t = dict(cfg, op='wh', flavour=flavour, events=es, eta=eta, policy=policy, _stream='many_chunks_' + flavour, _long=True)
+            if flavour in ('r2r', 'r2b'):
+                t['cue_vectors'] = whgen.table(r_mc, CUES, len(CUES) + r_mc.randint(0, 2), onehot=True, prefix='cd')
+            if flavour in ('r2r', 'b2r'):
+                t['outcome_vectors'] = whgen.table(r_mc, OUTS, len(OUTS) + r_mc.randint(0, 2), onehot=True, prefix='od')
+            groups.append((t, ndl_case_of(t)))
+    # "forall flavours and methods": method='numpy' and dict_wh (real-to-real only, exactly one cue and one
+    # outcome per event) with one-hot tables against ndl.ndl on the same events
+    r_m = rng('C14/methods')
+    for i in range(10 if quick else 120):
+        n = r_m.randint(1, 6)
+        es = [[[r_m.choice(CUES)], [r_m.choice(OUTS)]] for _ in range(n)]
+        policy = r_m.choice(METHOD_POLICIES)
+        eta = r_m.choice(whgen.ETAS)
+        cfg = dict(n_jobs=r_m.choice([1, 2, 4]), per_job=r_m.choice([1, 2, 10]), per_file=r_m.choice([2, 10000000]))
+        for method in ('numpy', 'dict_wh'):
+            t = dict(cfg, op='wh', flavour='r2r', method=method, events=es, eta=eta, policy=policy, _stream='onehot_' + method)
+            t['cue_vectors'] = whgen.table(r_m, CUES, len(CUES) + r_m.randint(0, 3), onehot=True, prefix='cd')
+            t['outcome_vectors'] = whgen.table(r_m, OUTS, len(OUTS) + r_m.randint(0, 5), onehot=True, prefix='od')
+            if method == 'dict_wh':
+                t['make_data_array'] = r_m.random() < 0.5
+                t['events_form'] = r_m.choice(['path', 'list', 'generator'])
+            groups.append((t, ndl_case_of(t)))
     wh_impl = pool.map([t for t, _ in groups])
     ndl_impl = pool.map([L.impl_task(c, 'ndl_openmp') for _, c in groups])
     wh_model = driver.ask([whgen.model_request(t) if t['flavour'] != 'b2b' else L.model_request(c, 'ndl_openmp') for t, c in groups])
     ndl_model = driver.ask([L.model_request(c, 'ndl_openmp') for _, c in groups])
     for (t, c), wi, ni, wm, nm in zip(groups, wh_impl, ndl_impl, wh_model, ndl_model):
-        rep.case({k: v for k, v in t.items() if k != 'op'}, nontrivial=True, stream='onehot_' + t['flavour'])
+        rep.case({k: v for k, v in t.items() if k != 'op'}, nontrivial=True, stream=t.get('_stream', 'onehot_' + t['flavour']))
         rep.count('policy:' + t['policy'])
-        prob = L.compare(ni, nm)
-        if prob:
-            prob = 'ndl.ndl vs Lean model: ' + prob
-        elif 'err' in wi:
-            prob = 'wh.wh raised %s %s' % (wi['err'], wi.get('msg', ''))
-        else:
-            if t['flavour'] != 'b2b':
-                d = whgen.compare(wi, wm)
-                if d:
-                    prob = 'wh.wh vs Lean whModel: ' + d
-            if prob is None:
-                ch = t.get('cue_vectors', {}).get('hot')
-                oh = t.get('outcome_vectors', {}).get('hot')
-                inv_c = {v: k for k, v in ch.items()} if ch else None
-                inv_o = {v: k for k, v in oh.items()} if oh else None
-                ren = {}
-                for o, cu, v in wi['cells']:
-                    ro = inv_o.get(o) if inv_o else o
-                    rc = inv_c.get(cu) if inv_c else cu
-                    if ro is None or rc is None:
-                        if frac(v) != 0:
-                            prob = 'weight on an unused one-hot dimension (%r, %r) = %s' % (o, cu, v)
-                        continue
-                    ren[(ro, rc)] = frac(v)
-                nd = gen.cells_dict(ni['cells'])
-                for k in set(ren) | set(nd):
-                    if ren.get(k, Fraction(0)) != nd.get(k, Fraction(0)):
-                        prob = 'wh (%s, one-hot) weight %r = %s, ndl(alpha=1, betas=(eta,eta), lambda=1) = %s' % (
-                            t['flavour'], k, float(ren.get(k, 0)), float(nd.get(k, 0)))
-                        break
-        if prob:
+        prob = judge(t, wi, ni, wm, nm)
+        if t.get('method'):
+            rep.count('method:%s:policy:%s' % (t['method'], t['policy']))
+            if t['method'] == 'dict_wh':
+                rep.count('dict_wh:make_data_array:%s' % t['make_data_array'])
+                rep.count('dict_wh:events_form:' + t['events_form'])
+        if t.get('_long'):
+            rep.count('chunk_files:%d' % whgen.n_chunk_files(len(t['events']), t['per_file']))
+            rep.count('many_chunks_domain:' + ('exact' if max(wm.get('bits', 0), nm.get('bits', 0)) <= 53 else 'tolerance'))
+            alt = driver.ask([L.model_request(dict(c, events=whgen.lexsorted_events(t['events'], t['per_file'])), 'ndl_openmp')])[0]
+            rep.count('many_chunks_sees_lexsort:' + ('yes' if alt.get('cells') != nm.get('cells') else 'no'))
+        if prob and t.get('_long'):
+            small, steps = whgen.shrink_events(t, lambda x: evaluate(pool, driver, x)[0] is not None, budget=30)
+            p2, wi2, ni2 = evaluate(pool, driver, small)
+            if p2 is None:
+                small, p2, wi2, ni2 = t, prob, wi, ni
+            rep.violation({'what': p2, 'input': small, 'observed': wi2.get('cells', wi2.get('err')), 'expected': ni2.get('cells', ni2.get('err')),
+                           'python': whgen.python_snippet(small) if t['flavour'] != 'b2b' else None,
+                           'chunk_files': whgen.n_chunk_files(len(small['events']), small['per_file']),
+                           'shrunk_from_events': len(t['events']), 'shrink_steps': steps,
+                           'theorem_or_stream': 'C14 wh_%s_onehot_eq_ndl: wh.wh vs ndl.ndl on the same file, >= 11 chunk files' % t['flavour']})
+        elif prob:
             rep.violation({'what': prob, 'input': t, 'observed': wi.get('cells', wi.get('err')), 'expected': ni.get('cells', ni.get('err')),
-                           'theorem_or_stream': 'C14 wh_%s_onehot_eq_rw: wh.wh vs ndl.ndl on the same file' % t['flavour']})
+                           'theorem_or_stream': 'C14 wh_%s_onehot_eq_rw: %s vs ndl.ndl on the same file' % (
+                               t['flavour'], {'numpy': "wh.wh(method='numpy')", 'dict_wh': 'wh.dict_wh'}.get(t.get('method'), 'wh.wh'))})
         elif len(t['events']) >= 2:
             rep.sample({'flavour': t['flavour'], 'events': t['events'][:3], 'eta': t['eta'], 'policy': t['policy'],
                         'wh_cells': wi['cells'][:3], 'ndl_cells': ni['cells'][:3]})
